@@ -719,6 +719,8 @@ func evalC13Concurrent(c *Ctx, cs *Case) {
 			defer wg.Done()
 			r := gen.New(cs.Seed, 5, uint64(g))
 			var own []*handoff
+			var keptErr error // the error of this goroutine's previous rejected document ...
+			var keptText string // ... and what it said when it was returned
 			for s := 0; s < steps; s++ {
 				switch k := r.Intn(12); {
 				case len(own) == 0 || (k == 0 && len(own) < 3):
@@ -771,6 +773,45 @@ func evalC13Concurrent(c *Ctx, cs *Case) {
 					// an independent From-Markdown call running concurrently: must equal its stand-alone result
 					f := gen.RandForest(r, 12, 4, []int{gen.ClassPlain, gen.ClassUnicode}, 10)
 					doc := gen.Spell(f, gen.RandSpelling(r))
+					if r.Chance(1, 3) {
+						// a REJECTED document: a line without a bullet that carries a marker unique to this
+						// call. Alone, the call returns an error naming that line; it must do so here, and
+						// the error value must keep saying so while other calls fail elsewhere.
+						marker := fmt.Sprintf("marker-c%d-g%d-s%d", cs.Idx%100000, g, s)
+						ls := strings.Split(gen.Spell(f, gen.Canonical), "\n")
+						at := r.Intn(len(ls))
+						ls = append(ls[:at], append([]string{"x " + marker}, ls[at:]...)...)
+						var bo Outcome
+						if r.Chance(1, 2) {
+							bo = OutputMD(strings.Join(ls, "\n"))
+						} else {
+							bo = Guard(func() error {
+								return gtree.WalkFromMarkdown(MDReader(strings.Join(ls, "\n")), func(*gtree.WalkerNode) error { return nil })
+							})
+						}
+						c.Count("concurrent_rejected_markdown_calls", 1)
+						what := ""
+						switch {
+						case bo.Panic != nil:
+							what = "panic: " + fmt.Sprint(bo.Panic)
+						case bo.Err == nil:
+							what = "accepted a line without a bullet (" + marker + ")"
+						case !strings.Contains(bo.Err.Error(), marker):
+							what = "the error of the call with " + marker + " says: " + bo.Err.Error()
+						case keptErr != nil && keptErr.Error() != keptText:
+							what = "an error returned earlier said " + strconv.Quote(keptText) + " and now says " + strconv.Quote(keptErr.Error())
+						}
+						if what != "" {
+							select {
+							case mdViol <- "rejected-document: " + what:
+							default:
+							}
+						}
+						if bo.Err != nil {
+							keptErr, keptText = bo.Err, bo.Err.Error()
+						}
+						continue
+					}
 					want := model.Render(model.Merge(f), model.DefaultBranch)
 					var o Outcome
 					kind := r.Intn(5)
